@@ -42,6 +42,17 @@ def blocks(rng, n, advance, bro_counts=None, n_fields=None):
                 bf = enc.header_fields(rng, rng.choice([19, 20]), cb_full=bcb,
                                        cb_split=64 * rng.randint(0, len(bcb) // 64))
                 bros.append({"fields": bf, "cb": bcb, "raw": enc.rlp_encode(bf)})
+            if bros and rng.random() < 0.2:
+                # brothers with EQUAL block hash: the same header listed twice, or a header differing only in
+                # the fields the hash does not cover (merkle proof, coinbase transaction)
+                x = rng.choice(bros)
+                if rng.random() < 0.5:
+                    bros.append(dict(x))
+                else:
+                    cb2 = rb(rng, rng.randint(65, 200))
+                    f2 = list(x["fields"][:-2]) + [rb(rng, 32 * rng.randint(0, 4)),
+                                                  enc.compress_coinbase(cb2, 64 * rng.randint(0, len(cb2) // 64))]
+                    bros.append({"fields": f2, "cb": cb2, "raw": enc.rlp_encode(f2)})
         out.append({"fields": f, "cb": cb, "raw": enc.rlp_encode(f), "brothers": bros})
     return out
 
